@@ -46,3 +46,250 @@ def gen_kernel_tbl():
 
 
 EXTRACTORS = [gen_kernel_tbl]
+
+
+# ---------------------------------------------------------------------------------------------------------------------
+# Gen/KernelMsgs.lean – the message types the kernel answers, read off the elif chain of Kernel.shell_handler, the
+# `if` of Kernel.control_listen and the greeting of ZmqSocket.handshake.  Names are emitted as byte lists (List Nat).
+def _bl(b):
+    if isinstance(b, str):
+        b = b.encode()
+    return "[" + ", ".join(str(x) for x in b) + "]"
+
+
+def _msg_type_test(test):
+    """`msg["header"]["msg_type"] == "X"` -> ["X"];  `... in {"a", "b"}` -> ["a", "b"];  else None"""
+    if not (isinstance(test, ast.Compare) and len(test.ops) == 1
+            and ast.unparse(test.left).replace('"', "'") == "msg['header']['msg_type']"):
+        return None
+    rhs = test.comparators[0]
+    if isinstance(test.ops[0], ast.Eq) and isinstance(rhs, ast.Constant) and isinstance(rhs.value, str):
+        return [rhs.value]
+    if isinstance(test.ops[0], ast.In):
+        return str_collection(rhs)
+    return None
+
+
+def _sends(nodes):
+    """self.send(...) call sites below the given statements, in source order: (stream expr, msg type, keywords)"""
+    out = []
+    for st in nodes:
+        for c in ast.walk(st):
+            if isinstance(c, ast.Call) and ast.unparse(c.func) == "self.send" and len(c.args) >= 2 \
+                    and isinstance(c.args[1], ast.Constant) and isinstance(c.args[1].value, str):
+                kws = {k.arg: ast.unparse(k.value).replace('"', "'") for k in c.keywords}
+                out.append((c.lineno, c.col_offset, ast.unparse(c.args[0]), c.args[1].value, kws))
+    out.sort()
+    return [(s, t, k) for (_l, _c, s, t, k) in out]
+
+
+def _is_status_send(st, state):
+    """`await self.send(self.iopub_socket, "status", content, parent_header=msg["header"])`"""
+    s = _sends([st])
+    return (len(s) == 1 and s[0][0] == "self.iopub_socket" and s[0][1] == "status"
+            and s[0][2].get("parent_header") == "msg['header']" and "identities" not in s[0][2])
+
+
+def _content_state(stmts, idx):
+    """the `content = {"execution_state": X}` assignment right before statement idx"""
+    if idx == 0:
+        return None
+    a = stmts[idx - 1]
+    if isinstance(a, ast.Assign) and isinstance(a.value, ast.Dict) and len(a.value.keys) == 1 \
+            and isinstance(a.value.keys[0], ast.Constant) and a.value.keys[0].value == "execution_state" \
+            and isinstance(a.value.values[0], ast.Constant):
+        return a.value.values[0].value
+    return None
+
+
+def gen_kernel_msgs():
+    body = []
+    jk = parse("jupyter_kernel.py")
+    sh = find_func(jk, "shell_handler", "Kernel")
+    cl = find_func(jk, "control_listen", "Kernel")
+    hs = find_func(jk, "handshake", "ZmqSocket")
+    sc = find_func(jk, "send_cmd", "ZmqSocket")
+    names = set()
+    # ---- shell_handler: busy first, elif chain, idle last
+    chain = [s for s in (sh.body if sh else []) if isinstance(s, ast.If) and _msg_type_test(s.test)]
+    if sh is None or len(chain) != 1:
+        broken.append("jupyter_kernel.Kernel.shell_handler: the if/elif chain over msg['header']['msg_type'] was not found")
+    else:
+        top = sh.body
+        ci = top.index(chain[0])
+        pre = [i for i, s in enumerate(top[:ci]) if _sends([s])]
+        post = [i for i, s in enumerate(top[ci + 1:], ci + 1) if _sends([s])]
+        busy_first = (len(pre) == 1 and _is_status_send(top[pre[0]], "busy") and _content_state(top, pre[0]) == "busy")
+        idle_last = (len(post) == 1 and post[0] == len(top) - 1 and _is_status_send(top[post[0]], "idle")
+                     and _content_state(top, post[0]) == "idle")
+        # deserialize is the first statement, before anything is sent
+        des = [i for i, s in enumerate(top) if any(isinstance(n, ast.Call) and ast.unparse(n.func) == "self.deserialize_wire_msg"
+                                                   for n in ast.walk(s))]
+        deser_first = bool(des) and bool(pre) and des[0] < pre[0]
+        table, silent, shape_ok, exec_sends = [], [], True, None
+        node = chain[0]
+        while True:
+            types = _msg_type_test(node.test)
+            if types is None:
+                shape_ok = False
+                break
+            sends = _sends(node.body)
+            if types == ["execute_request"]:
+                exec_sends = sends
+                table.append(("execute_request", "execute_reply"))
+                if not any(t == "execute_reply" for (_s, t, _k) in sends):
+                    shape_ok = False
+            elif len(sends) == 1:
+                s, t, k = sends[0]
+                if len(types) != 1 or s != "shell_socket" or k.get("identities") != "identities" \
+                        or k.get("parent_header") != "msg['header']":
+                    shape_ok = False
+                table.append((types[0], t))
+            elif not sends:
+                silent += types
+            else:
+                shape_ok = False
+            if len(node.orelse) == 1 and isinstance(node.orelse[0], ast.If):
+                node = node.orelse[0]
+                continue
+            if _sends(node.orelse):
+                shape_ok = False       # the final else (unknown type) must not send
+            break
+        for q, r in table:
+            names.update([q, r])
+        names.update(silent)
+        body.append("/-- request type → reply type, in the order of the elif chain of shell_handler -/")
+        body.append("def SHELL_REPLY_TABLE : List (List Nat × List Nat) := [" +
+                    ", ".join(f"({_bl(q)}, {_bl(r)})" for q, r in table) + "]")
+        body.append("def SHELL_REPLY_NAMES : List (String × String) := [" +
+                    ", ".join(f"({lean_str(q)}, {lean_str(r)})" for q, r in table) + "]")
+        body.append("/-- types handled by a branch that sends nothing (comm_*) -/")
+        body.append("def SHELL_SILENT : List (List Nat) := [" + ", ".join(_bl(t) for t in sorted(silent)) + "]")
+        body.append("/-- every one-reply branch sends exactly once, on shell_socket, with identities=identities and "
+                    "parent_header=msg['header']; silent branches and the final else send nothing -/")
+        body.append(f"def SHELL_BRANCH_SHAPE_OK : Bool := {'true' if shape_ok else 'false'}")
+        body.append(f"def SHELL_BUSY_FIRST : Bool := {'true' if busy_first and deser_first else 'false'}")
+        body.append(f"def SHELL_IDLE_LAST : Bool := {'true' if idle_last else 'false'}")
+        if exec_sends is None:
+            broken.append("jupyter_kernel.Kernel.shell_handler: no execute_request branch")
+        else:
+            # (type, goes to the requesting socket with the request's identities?) in source order
+            rows = []
+            for s, t, k in exec_sends:
+                to_shell = (s == "shell_socket")
+                ok = k.get("parent_header") == "msg['header']" and \
+                    ((to_shell and k.get("identities") == "identities") or
+                     (s == "self.iopub_socket" and "identities" not in k))
+                rows.append((t, to_shell, ok))
+                names.add(t)
+            body.append("/-- send sites of the execute_request branch in source order: (type, on the shell socket, well-addressed) -/")
+            body.append("def EXEC_SENDS : List (List Nat × Bool × Bool) := [" +
+                        ", ".join(f"({_bl(t)}, {'true' if a else 'false'}, {'true' if b else 'false'})" for t, a, b in rows) + "]")
+        names.add("status")
+        # the try around ast_ctx.parse in the is_complete_request branch: which exceptions end in a reply
+        node = chain[0]
+        isc = None
+        while node is not None:
+            if _msg_type_test(node.test) == ["is_complete_request"]:
+                isc = node
+            node = node.orelse[0] if len(node.orelse) == 1 and isinstance(node.orelse[0], ast.If) else None
+        tries = [t for st in (isc.body if isc else []) for t in ast.walk(st) if isinstance(t, ast.Try)]
+        if len(tries) != 1 or len(tries[0].handlers) != 1:
+            broken.append("jupyter_kernel.Kernel.shell_handler: is_complete_request try/except shape")
+        else:
+            h = tries[0].handlers[0]
+            catch_all = h.type is None or (isinstance(h.type, ast.Name) and h.type.id in ("Exception", "BaseException"))
+            body.append("/-- the parse of an is_complete_request is guarded by `except Exception` (every parser failure is answered) -/")
+            body.append(f"def ISCOMPLETE_CATCHES_ALL : Bool := {'true' if catch_all else 'false'}")
+    # ---- control_listen
+    if cl is None:
+        broken.append("jupyter_kernel.Kernel.control_listen not found")
+    else:
+        ifs = [n for n in ast.walk(cl) if isinstance(n, ast.If) and _msg_type_test(n.test)]
+        rows, queues = [], True
+        for n in ifs:
+            types = _msg_type_test(n.test)
+            sends = _sends(n.body)
+            if len(types) == 1 and len(sends) == 1 and sends[0][0] == "control_socket" \
+                    and sends[0][2].get("identities") == "identities" and sends[0][2].get("parent_header") == "msg['header']" \
+                    and not n.orelse:
+                rows.append((types[0], sends[0][1]))
+                puts = [c for st in n.body for c in ast.walk(st) if isinstance(c, ast.Call)
+                        and ast.unparse(c.func) == "self.housekeep_q.put" and ast.unparse(c.args[0]).replace('"', "'") == "['shutdown']"]
+                queues = queues and len(puts) == 1
+            else:
+                broken.append("jupyter_kernel.Kernel.control_listen: unrecognised reply branch")
+        all_sends = _sends(cl.body)
+        if len(all_sends) != len(rows):
+            broken.append("jupyter_kernel.Kernel.control_listen: a send outside the recognised reply branches")
+        for q, r in rows:
+            names.update([q, r])
+        body.append("def CONTROL_REPLY_TABLE : List (List Nat × List Nat) := [" +
+                    ", ".join(f"({_bl(q)}, {_bl(r)})" for q, r in rows) + "]")
+        body.append(f"def CONTROL_REPLY_QUEUES_SHUTDOWN : Bool := {'true' if rows and queues else 'false'}")
+    for n in sorted(names):
+        body.append(f"def N_{n} : List Nat := {_bl(n)}")
+    # ---- handshake: alternating literal writes and fixed-size reads, then READY
+    if hs is None or sc is None:
+        broken.append("jupyter_kernel.ZmqSocket.handshake / send_cmd not found")
+    else:
+        writes, reads, inspected, ready = [], [], False, None
+        order = []
+        for st in hs.body:
+            for c in ast.walk(st):
+                if not isinstance(c, ast.Await) or not isinstance(c.value, ast.Call):
+                    continue
+                f = ast.unparse(c.value.func)
+                if f == "self.write_bytes":
+                    try:
+                        v = eval(compile(ast.Expression(c.value.args[0]), "hs", "eval"), {"__builtins__": {}})  # literal bytes expr
+                    except Exception:  # not a literal
+                        v = None
+                    if not isinstance(v, bytes):
+                        broken.append("ZmqSocket.handshake: a write that is not a literal byte string")
+                    else:
+                        writes.append(v)
+                        order.append("w")
+                elif f == "self.read_bytes" and isinstance(c.value.args[0], ast.Constant):
+                    reads.append(c.value.args[0].value)
+                    order.append("r")
+                elif f == "self.send_cmd" and isinstance(c.value.args[0], ast.Constant):
+                    ready = c.value.args[0].value
+                    order.append("c")
+        # does the handshake look at what it read?  (any Compare / Raise / If on something other than self.type)
+        for n in ast.walk(hs):
+            if isinstance(n, ast.Raise):
+                inspected = True
+            if isinstance(n, ast.If) and "self.type" not in ast.unparse(n.test):
+                inspected = True
+        if order != ["w", "r"] * len(reads) + ["c"] or ready is None:
+            broken.append(f"ZmqSocket.handshake: unrecognised write/read order {order}")
+        else:
+            body.append("def HS_WRITES : List (List Nat) := [" + ", ".join(_bl(w) for w in writes) + "]")
+            body.append("def HS_READS : List Nat := [" + ", ".join(str(r) for r in reads) + "]")
+            body.append(f"def HS_CMD : List Nat := {_bl(ready)}")
+            body.append(f"def HS_VALIDATES : Bool := {'true' if inspected else 'false'}")
+        # READY parameters: [["Socket-Type", self.type]] + [["Identity", ""]] when ROUTER
+        src = ast.unparse(hs).replace('"', "'")
+        if "[['Socket-Type', self.type]]" in src and "if self.type == 'ROUTER'" in src and "params.append(['Identity', ''])" in src:
+            body.append(f"def HS_PARAM_TYPE : List Nat := {_bl('Socket-Type')}")
+            body.append(f"def HS_PARAM_IDENTITY : List Nat := {_bl('Identity')}")
+            body.append(f"def HS_ROUTER : List Nat := {_bl('ROUTER')}")
+        else:
+            broken.append("ZmqSocket.handshake: READY parameter shape")
+        # send_cmd framing constants: short flag 0x4 + 1-byte length up to 255, else 0x6 + 8 bytes; 4-byte value lengths
+        t = [n.comparators[0].value for n in ast.walk(sc) if isinstance(n, ast.Compare) and isinstance(n.ops[0], ast.LtE)
+             and isinstance(n.comparators[0], ast.Constant)]
+        flags = [e.value for n in ast.walk(sc) if isinstance(n, ast.Call) and ast.unparse(n.func) == "bytearray" and n.args
+                 and isinstance(n.args[0], ast.List) and n.args[0].elts and isinstance(n.args[0].elts[0], ast.Constant)
+                 for e in n.args[0].elts[:1]]
+        pk = [n.args[0].value for n in ast.walk(sc) if isinstance(n, ast.Call) and ast.unparse(n.func) == "pack"]
+        if t == [255] and flags == [4, 6] and pk == [">L", ">Q"]:
+            body.append("def CMD_SHORT_MAX : Nat := 255\ndef CMD_FLAG_SHORT : Nat := 4\ndef CMD_FLAG_LONG : Nat := 6\n"
+                        "def CMD_VALUE_LEN_BYTES : Nat := 4\ndef CMD_LONG_LEN_BYTES : Nat := 8")
+        else:
+            broken.append(f"ZmqSocket.send_cmd: framing constants {t} {flags} {pk}")
+    emit("KernelMsgs", "\n".join(body))
+
+
+EXTRACTORS.append(gen_kernel_msgs)
